@@ -504,11 +504,22 @@ func (p *c10Pet) Resolve(f *ggql.Field, args map[string]interface{}) (interface{
 	return p.kind, nil
 }
 
+const c10PetSDL = "interface Pet { name(short: Boolean): String }\n" +
+	"type Dog implements Pet { name(short: Boolean, style: String): String }\n" +
+	"type Cat implements Pet { name(short: Boolean): String }\n" +
+	"type Query { pet: Pet pets: [Pet] dog: Dog cat: Cat }\n"
+
+func c10PetRoot() *ggql.Root {
+	var log []string
+	root := ggql.NewRoot(&c10Pet{"Query", &log})
+	if err := root.ParseString(c10PetSDL); err != nil {
+		panic(core.EngineError{Msg: "C10 interface-argument schema refused: " + err.Error()})
+	}
+	return root
+}
+
 func c10InterfaceArguments(c *core.Ctx) {
-	const sdl = "interface Pet { name(short: Boolean): String }\n" +
-		"type Dog implements Pet { name(short: Boolean, style: String): String }\n" +
-		"type Cat implements Pet { name(short: Boolean): String }\n" +
-		"type Query { pet: Pet pets: [Pet] dog: Dog cat: Cat }\n"
+	const sdl = c10PetSDL
 	cases := []struct {
 		q     string
 		valid bool
